@@ -61,7 +61,7 @@ def build_coq():
             rc, o, e = sh(["coq_makefile", "-f", "_CoqProject", "-o", "Makefile"], cwd=COQ)
             if rc:
                 raise Infra("coq_makefile failed: " + e.decode())
-        rc, o, e = sh(["make", "-j%d" % NCPU], cwd=COQ, timeout=1500)
+        rc, o, e = sh(["timeout", "900", "make", "-j%d" % NCPU], cwd=COQ, timeout=1000)
         if rc:
             raise Infra("static Coq development does not build (our bug, not a verdict):\n"
                         + (o + e).decode()[-3000:])
